@@ -56,22 +56,28 @@ var commonAssumptions = []string{
 
 var propSpecs = []PropSpec{
 	{ID: "C18", Pkgs: []string{"dt"},
-		BoundsQ:     "ordered/unordered sets, <=3 operations out of {Add, AddCheck, Delete, DeleteCheck, Populate(2), Extend(2), SortQuick, SortMerge} over values {0,1,2}; after every step Len, Check(0..2), return values and the iterator (multiset, or sequence when ordered) against a reference; Equal against 4 kinds of second set",
+		BoundsQ:     "ordered/unordered sets, <=3 operations out of {Add, AddCheck, Delete, DeleteCheck, Populate(2), Extend(2), SortQuick, SortMerge} over values {0,1,2}; after every step Len, Check(0..2), return values and the iterator (multiset, or sequence when ordered) against a reference; Equal against 4 kinds of second set; synchronized set: 2 goroutines x 2 operations (AddCheck/DeleteCheck/Check/Len over {0,1}), history explained by an interleaving, preemption bound 2",
 		BoundsT:     "<=4 operations",
 		Outside:     "JSON round trip; value domains beyond 3 values; longer sequences; the unordered iterator's goroutine is scheduled without preemption here (schedules are C04/C13)",
 		Assumptions: commonAssumptions,
 		Tune: func(cfg *Config, tier, entry string) {
 			cfg.Preempt = 0
+			if entry == "VC18_Sync" {
+				cfg.Preempt = 2
+				if tier == "thorough" {
+					cfg.Preempt = 3
+				}
+			}
 		}},
 	{ID: "C19", Pkgs: []string{"dt/hdrhist"},
-		BoundsQ:     "lemmas: v = any 64-bit value in [min,max], shape grid sig 1..3 x 5 mins x boundary/decimal maxes (countsLen<=300000); walk: 5 small shapes, <=2 distinct values x multiplicity <=2, every rank, q=100, q>100, Min/Max, Export/Import, Merge",
+		BoundsQ:     "lemmas: v = any 64-bit value in [min,max], shape grid sig 1..3 x 5 mins x boundary/decimal maxes (countsLen<=300000); walk: 5 small shapes, <=2 distinct values x multiplicity <=2, every rank, q=100, q>100, Min/Max, Export/Import, Merge; independence of Export/Import/Merge copies (2 shapes, 1 symbolic value, 5 mutation modes)",
 		BoundsT:     "lemmas: sig 1..5 x 8 mins x extended maxes up to 2^62; walk: 8 small shapes, <=3 values x multiplicity <=2",
 		Outside:     "shapes off the grid; Mean/StdDev/CumulativeDistribution; arbitrary Float64 q (only rank-targeting q, 100, >100); more than 3 distinct recorded values in whole-histogram walks; composition of the per-value lemmas into the quantile clause for large shapes is an argument (DESIGN C19), not a query",
 		Assumptions: commonAssumptions,
 		Tune: func(cfg *Config, tier, entry string) {
 			cfg.Race = false
 			cfg.Unwind = 5000
-			cfg.ConcretizeIndex = entry == "VC19_Walk"
+			cfg.ConcretizeIndex = entry == "VC19_Walk" || entry == "VC19_Alias"
 		}},
 	{ID: "C07", Pkgs: []string{"pubsub"},
 		BoundsQ:     "<=4 client goroutines (+ the helper goroutines the library starts), preemption bound 2",
@@ -115,6 +121,12 @@ var propSpecs = []PropSpec{
 		BoundsQ:     "Once: 10 wrapper kinds x <=2 concurrent callers; Limit(n): n symbolic in [1,4], <=5 sequential calls (5 kinds), 2 goroutines x 2 calls concurrently (3 kinds, n in [1,3]); Lock/WithLock: 7 kinds x 2 callers; Retry(n): n symbolic in [0,3], every outcome sequence over {ok, error, skip, EOF, abort, canceled} (3 kinds); hooks/Join: 11 compositions x live/cancelled context; background waiters: 9 kinds; preemption bound 2",
 		BoundsT:     "<=3 concurrent callers, preemption bound 3",
 		Outside:     "TTL, Delay, After, Jitter, Interval (wall clock); panicking wrapped functions under Limit/Once; deeper stackings of wrappers",
+		Assumptions: commonAssumptions,
+		Tune:        func(cfg *Config, tier, entry string) {}},
+	{ID: "C05", Pkgs: []string{"pubsub"},
+		BoundsQ:     "step: every option combination (unlimited, or hard limit in [1,3], soft quota in [0,hard], burst credit in {default, 0.5, 1, 2.5}), canonical prefix of <=3 Add/Remove, optional Close, then one of 9 operations (Add, Remove, Len, Close, Wait, BlockingAdd, Distributor Send/Len/Receive), queue drained and compared; tracker step (private state): one add/remove from an arbitrary valid tracker state with hard limit <=16 and symbolic Float64 credit; histories: 2-3 goroutines x <=2 operations on unlimited and capacity-1 queues, linearization search over all real-time-consistent orders, preemption bound 2; race monitor on every execution",
+		BoundsT:     "histories at preemption bound 3; prefix <=5",
+		Outside:     "queues longer than the bounds; the amount of credit granted by a removal and the dynamic soft quota (not specified by the documentation) - after a removal an Add below the hard limit may succeed or report ErrQueueNoCredit; linearizability of all histories rests on the lock-discipline premise (race monitor) plus the one-step refinement, the history search is a cross-check within its bounds",
 		Assumptions: commonAssumptions,
 		Tune:        func(cfg *Config, tier, entry string) {}},
 	{ID: "TV", Pkgs: []string{"internal"}, BoundsQ: "translator validation corpus"},
